@@ -55,6 +55,15 @@ func C09Worlds(c *Ctx, sz sizes) ([]*World, error) {
 			ws = append(ws, w)
 		}
 	}
+	for i := 0; i < sz.templates*3; i++ {
+		r := c.Rng("c09-layout-world", i)
+		spec := DrawLayout(r, 1+r.IntN(4), LayoutOpts{UserPkgs: true, Guarded: true, CustomTags: true, GuardedUser: true})
+		if hasPathConflict(spec) {
+			continue
+		}
+		w := spec.World(fmt.Sprintf("layout#%d", i))
+		ws = append(ws, w)
+	}
 	for i := 0; i < sz.combos && len(corpus) > 2; i++ {
 		r := c.Rng("c09-combo", i)
 		k := 2 + r.IntN(2)
@@ -156,7 +165,8 @@ func CheckC09(c *Ctx) (*Outcome, error) {
 	// phase B: histories
 	hmk := func(i int) ([]*History, error) {
 		rng := c.Rng("c09-history", i)
-		h := DrawHistory(c, rng, HistoryOpts{MaxSteps: 4, Faults: true, Corrupt: true, Relocate: true, EnvVariants: true, RandomOrder: true, TornHeader: rng.IntN(2) == 0})
+		h := DrawHistory(c, rng, HistoryOpts{MaxSteps: 4, Faults: true, Corrupt: true, Relocate: true, EnvVariants: true, RandomOrder: true, TornHeader: rng.IntN(2) == 0,
+			Layout: LayoutOpts{UserPkgs: true, Guarded: true, CustomTags: true, GuardedUser: true}})
 		if i < 4 {
 			c.Stats.Sample(map[string]any{"history_ops": DescribeOps(h)}, 10)
 		}
